@@ -205,6 +205,96 @@ func init() {
 		return api.ResetFormFieldsFile(e.In[0], e.Out, nil, conf())
 	})
 
+
+	// ---- wider API coverage (second catalogue wave): every remaining public *File writer of pkg/api
+	wmText := func(update bool) (*model.Watermark, error) {
+		return api.TextWatermark("Map", "scale:.4, rot:10", true, update, types.POINTS)
+	}
+	single("watermarks-map", zine, func(e *Env) error {
+		w1, err := wmText(false)
+		if err != nil {
+			return err
+		}
+		w2, err := api.TextWatermark("Other", "scale:.2, pos:bl", true, false, types.POINTS)
+		if err != nil {
+			return err
+		}
+		return api.AddWatermarksMapFile(e.In[0], e.Out, map[int]*model.Watermark{1: w1, 3: w2}, conf())
+	})
+	single("watermarks-slicemap", zine, func(e *Env) error {
+		w1, err := wmText(false)
+		if err != nil {
+			return err
+		}
+		w2, err := api.TextWatermark("Second", "scale:.2, pos:tr", true, false, types.POINTS)
+		if err != nil {
+			return err
+		}
+		return api.AddWatermarksSliceMapFile(e.In[0], e.Out, map[int][]*model.Watermark{2: {w1, w2}}, conf())
+	})
+	single("watermark-update-text", zine, func(e *Env) error {
+		return api.UpdateTextWatermarksFile(e.In[0], e.Out, nil, true, "Final", "scale:.5, rot:20", conf())
+	}).Prepare = func(e *Env) error {
+		return api.AddTextWatermarksFile(e.In[0], "", nil, true, "Draft", "scale:.5", conf())
+	}
+	o = single("watermark-update-image", zine, func(e *Env) error {
+		return api.UpdateImageWatermarksFile(e.In[0], e.Out, nil, false, e.Aux[0], "scale:.2", conf())
+	})
+	o.Aux = []string{"resources/logoVerySmall.png"}
+	o.Prepare = func(e *Env) error {
+		return api.AddImageWatermarksFile(e.In[0], "", nil, false, e.Aux[0], "scale:.3", conf())
+	}
+	o = single("watermark-update-pdf", zine, func(e *Env) error {
+		return api.UpdatePDFWatermarksFile(e.In[0], e.Out, nil, false, e.Aux[0], "scale:.2", conf())
+	})
+	o.Aux = []string{"test.pdf"}
+	o.Prepare = func(e *Env) error {
+		return api.AddPDFWatermarksFile(e.In[0], "", nil, false, e.Aux[0], "scale:.3", conf())
+	}
+	single("annotations-add-map", zine, func(e *Env) error {
+		return api.AddAnnotationsMapFile(e.In[0], e.Out, map[int][]model.AnnotationRenderer{1: {textAnn()}, 2: {textAnn()}}, conf(), false)
+	})
+	single("form-lock", []string{"samples/form/demoSinglePage/person.pdf"}, func(e *Env) error {
+		return api.LockFormFieldsFile(e.In[0], e.Out, nil, conf())
+	}).NeedsUserFont = true
+	o = single("form-unlock", []string{"samples/form/demoSinglePage/person.pdf"}, func(e *Env) error {
+		return api.UnlockFormFieldsFile(e.In[0], e.Out, nil, conf())
+	})
+	o.NeedsUserFont = true
+	o.Prepare = func(e *Env) error { return api.LockFormFieldsFile(e.In[0], "", nil, conf()) }
+	single("form-remove-fields", []string{"samples/form/demo/english.pdf"}, func(e *Env) error {
+		return api.RemoveFormFieldsFile(e.In[0], e.Out, []string{"dob1", "firstName1"}, conf())
+	})
+	single("signatures-remove", []string{"samples/signatures/ETSI.CAdES.detached/testPAdES_BB.pdf"}, func(e *Env) error {
+		return api.RemoveSignaturesFile(e.In[0], e.Out, nil)
+	})
+	o = single("viewerpref-set-jsonfile", small, func(e *Env) error {
+		return api.SetViewerPreferencesFileFromJSONFile(e.In[0], e.Out, e.Aux[0], conf())
+	})
+	o.Aux = []string{"json/viewerPreferences.json"}
+	o = single("images-update", []string{"samples/images/test.pdf"}, func(e *Env) error {
+		return api.UpdateImagesFile(e.In[0], e.Aux[0], e.Out, 8, 0, "", conf())
+	})
+	o.Aux = []string{"samples/images/test_1_Im1.png"}
+	// a context read by the caller and written with WriteContextFile (no input file is open during the write)
+	o = single("writecontextfile", zine, func(e *Env) error {
+		ctx, err := api.ReadContextFile(e.In[0])
+		if err != nil {
+			return err
+		}
+		out := e.Out
+		if out == "" {
+			out = e.In[0]
+		}
+		return api.WriteContextFile(ctx, out)
+	})
+	o.Rels = []string{RelInPlace, RelNew, RelExisting, RelExisting0}
+	// create with an input PDF that the JSON description extends
+	o = single("create-json-onto-pdf", small, func(e *Env) error {
+		return api.CreateFile(e.In[0], e.Aux[0], e.Out, conf())
+	})
+	o.Aux = []string{"json/create/textAndAlignment.json"}
+
 	// ---- CLI layer with the input on stdin: the pkg/cli stream plumbing (spooled input, createStreamOutput, finalizer)
 	stdin := func(name string, inputs []string, run func(e *Env) error) {
 		o := &Op{Name: name, Family: "single", Inputs: inputs, Rels: []string{RelNew, RelExisting, RelExisting0}}
@@ -225,6 +315,84 @@ func init() {
 	stdin("cli-stdin-trim", zine, func(e *Env) error { _, err := cli.Trim(cli.TrimCommand("-", e.Out, []string{"1-2"}, conf())); return err })
 	stdin("cli-stdin-removepages", zine, func(e *Env) error {
 		_, err := cli.RemovePages(cli.RemovePagesCommand("-", e.Out, []string{"1"}, conf()))
+		return err
+	})
+
+	stdin("cli-stdin-collect", zine, func(e *Env) error { _, err := cli.Collect(cli.CollectCommand("-", e.Out, []string{"2", "1"}, conf())); return err })
+	stdin("cli-stdin-watermark", zine, func(e *Env) error {
+		wm, err := api.TextWatermark("CLI", "scale:.4", true, false, types.POINTS)
+		if err != nil {
+			return err
+		}
+		_, err = cli.AddWatermarks(cli.AddWatermarksCommand("-", e.Out, nil, wm, conf()))
+		return err
+	})
+	stdin("cli-stdin-resize", zine, func(e *Env) error {
+		r, err := pdfcpu.ParseResizeConfig("scale:.5", types.POINTS)
+		if err != nil {
+			return err
+		}
+		_, err = cli.Resize(cli.ResizeCommand("-", e.Out, nil, r, conf()))
+		return err
+	})
+	stdin("cli-stdin-zoom", zine, func(e *Env) error {
+		z, err := pdfcpu.ParseZoomConfig("factor:.5", types.POINTS)
+		if err != nil {
+			return err
+		}
+		_, err = cli.Zoom(cli.ZoomCommand("-", e.Out, nil, z, conf()))
+		return err
+	})
+	stdin("cli-stdin-insertpages", zine, func(e *Env) error {
+		_, err := cli.InsertPages(cli.InsertPagesCommand("-", e.Out, []string{"2"}, conf(), "before", nil))
+		return err
+	})
+	stdin("cli-stdin-crop", zine, func(e *Env) error {
+		b, err := api.Box("[0 0 150 150]", types.POINTS)
+		if err != nil {
+			return err
+		}
+		_, err = cli.Crop(cli.CropCommand("-", e.Out, nil, b, conf()))
+		return err
+	})
+	stdin("cli-stdin-boxes-add", zine, func(e *Env) error {
+		pb, err := api.PageBoundaries("crop:[10 10 200 200]", types.POINTS)
+		if err != nil {
+			return err
+		}
+		_, err = cli.AddBoxes(cli.AddBoxesCommand("-", e.Out, nil, pb, conf()))
+		return err
+	})
+	stdin("cli-stdin-nup", zine, func(e *Env) error {
+		nup, err := api.PDFNUpConfig(4, "", conf())
+		if err != nil {
+			return err
+		}
+		_, err = cli.NUp(cli.NUpCommand([]string{"-"}, e.Out, nil, nup, conf()))
+		return err
+	})
+	stdin("cli-stdin-bookmarks-remove", []string{"samples/bookmarks/bookmarkSimple.pdf"}, func(e *Env) error {
+		_, err := cli.RemoveBookmarks(cli.RemoveBookmarksCommand("-", e.Out, conf()))
+		return err
+	})
+	stdin("cli-stdin-annotations-remove", []string{"annotTest.pdf"}, func(e *Env) error {
+		_, err := cli.RemoveAnnotations(cli.RemoveAnnotationsCommand("-", e.Out, nil, nil, nil, conf()))
+		return err
+	})
+	stdin("cli-stdin-keywords-add", small, func(e *Env) error {
+		_, err := cli.AddKeywords(cli.AddKeywordsCommand("-", e.Out, []string{"cli", "ключ"}, conf()))
+		return err
+	})
+	stdin("cli-stdin-properties-add", small, func(e *Env) error {
+		_, err := cli.AddProperties(cli.AddPropertiesCommand("-", e.Out, map[string]string{"Via": "stdin"}, conf()))
+		return err
+	})
+	stdin("cli-stdin-form-reset", []string{"samples/form/demoSinglePage/person.pdf"}, func(e *Env) error {
+		_, err := cli.ResetFormFields(cli.ResetFormCommand("-", e.Out, nil, conf()))
+		return err
+	})
+	stdin("cli-stdin-signatures-remove", []string{"samples/signatures/ETSI.CAdES.detached/testPAdES_BB.pdf"}, func(e *Env) error {
+		_, err := cli.RemoveSignatures(cli.RemoveSignaturesCommand("-", e.Out, conf()))
 		return err
 	})
 
@@ -323,6 +491,35 @@ func init() {
 		}
 		return api.PosterFile(e.In[0], e.OutDir, "post", nil, c, conf())
 	})
+
+	// CLI layer with stdin for output-directory commands: api.ExtractX(rs, ..., WriteXToDisk(outDir, "stdin")) and api.Split(rs, ...)
+	stdinDir := func(name string, inputs []string, run func(e *Env) error) {
+		o := outdir(name, inputs, nil)
+		o.Run = func(e *Env) error {
+			f, err := os.Open(e.In[0])
+			if err != nil {
+				return err
+			}
+			old := os.Stdin
+			os.Stdin = f
+			defer func() { os.Stdin = old; f.Close() }()
+			return run(e)
+		}
+	}
+	stdinDir("cli-stdin-split", zine, func(e *Env) error { _, err := cli.Split(cli.SplitCommand("-", e.OutDir, 2, conf())); return err })
+	stdinDir("cli-stdin-extract-pages", zine, func(e *Env) error {
+		_, err := cli.ExtractPages(cli.ExtractPagesCommand("-", e.OutDir, []string{"1", "3"}, conf()))
+		return err
+	})
+	stdinDir("cli-stdin-extract-images", []string{"testImage.pdf"}, func(e *Env) error {
+		_, err := cli.ExtractImages(cli.ExtractImagesCommand("-", e.OutDir, nil, conf()))
+		return err
+	})
+	stdinDir("cli-stdin-extract-content", zine, func(e *Env) error {
+		_, err := cli.ExtractContent(cli.ExtractContentCommand("-", e.OutDir, []string{"1-2"}, conf()))
+		return err
+	})
+
 	o = outdir("multifill-json", []string{"samples/form/demoSinglePage/english.pdf"}, func(e *Env) error {
 		return api.MultiFillFormFile(e.In[0], e.Aux[0], e.OutDir, filepath.Base(e.In[0]), false, conf())
 	})
